@@ -467,6 +467,24 @@ fn main() {
             cx.out.case("", &[], &["blob".into(), hx(&p)], &r, Some(r.starts_with("returned") && !r.contains("(0 accepted)")), "handmade-signature-parses");
             packets.push(p);
         }
+        // a signature with ONE subpacket of every type 0..=127 and a body of every length 0..=9 (and 20, 33), hashed or unhashed,
+        // v4 / v6: parsers of fixed-shape subpackets meet bodies one octet short or long of their shape
+        for v6 in [false, true] { for hashed in [true, false] { for typ in 0u8..128 { for n in (0usize..=9).chain([20, 33]) {
+            if !thorough && typ > 40 && typ % 9 != 0 { continue; }
+            let mut sp = vec![(n + 1) as u8, typ]; sp.extend((0..n).map(|i| (i as u8).wrapping_mul(37).wrapping_add(typ)));
+            let (ha, ua): (&[u8], &[u8]) = if hashed { (&sp, &[]) } else { (&[], &sp) };
+            let mut body = vec![if v6 { 6u8 } else { 4 }, 0x00, 22, 8];
+            if v6 { body.extend((ha.len() as u32).to_be_bytes()); } else { body.extend((ha.len() as u16).to_be_bytes()); }
+            body.extend_from_slice(ha);
+            if v6 { body.extend((ua.len() as u32).to_be_bytes()); } else { body.extend((ua.len() as u16).to_be_bytes()); }
+            body.extend_from_slice(ua);
+            body.extend([0xab, 0xcd]);
+            if v6 { body.push(16); body.extend([7u8; 16]); body.extend([9u8; 64]); } else { body.extend([0x00, 0x08, 0xff, 0x00, 0x08, 0xff]); }
+            let p = new_header(2, &body);
+            let r = packet_entry_points(p.clone(), keys.clone());
+            let ok = !(r.starts_with("PANIC") || r == "TIMEOUT");
+            if ok { cx.out.case("", &[], &["sweep".into(), "subpacket-body-lengths".into()], &r, Some(true), "subpacket-body-lengths"); } else { cx.out.case("", &[], &["blob".into(), hx(&p)], &r, Some(false), "subpacket-body-lengths"); }
+        } } } }
         // user attribute packets as the library writes them (image attribute: little-endian header length, version, format) and
         // with an unknown subpacket type
         {
